@@ -13,8 +13,8 @@ from vk.core import Case, Ctx
 GEN_MODULES: List[str] = []
 MANIFEST = {
     "design_ref": "§5 C18",
-    "text": ("Lean theorem c18_history (+ corollaries single_flight, shared_outcome, failure_cached, no_deadlock, "
-             "never_raises, uncache_race): for EVERY sequence of environment operations (lookups of any locations, "
+    "text": ("Lean theorem c18_history: judge (run ops) = true (+ clause theorems single_flight, failure_cached, shared_outcome, "
+             "cancelled_only_if_requested, never_raises, no_deadlock, no_orphan_marker, snapshots_ok): for EVERY sequence of environment operations (lookups of any locations, "
              "responses released with any outcome, cancellation of any lookup at any point, uncache, single scheduler "
              "steps in any interleaving) the trace of the cache model is accepted by the monitor: a request is issued only "
              "when every earlier download of the location since its last uncache was abandoned by cancellation; a lookup "
